@@ -61,7 +61,8 @@ RectsOn(lo, hi) == { r \in (lo..hi) \X (lo..hi) \X (lo..hi) \X (lo..hi) : r[1] <
 RectPix(r) == (r[1]..(r[3]-1)) \X (r[2]..(r[4]-1))
 RectLess(a, b) == \E i \in 1..4 : a[i] < b[i] /\ \A j \in 1..(i-1) : a[j] = b[j]
 UnionPix(rs) == UNION { RectPix(rs[i]) : i \in 1..Len(rs) }
-RegionPix(g) == UnionPix(g.add) \ UnionPix(g.sub)
+Isl(g) == IF "isl" \in DOMAIN g THEN g.isl ELSE << >>
+RegionPix(g) == (UnionPix(g.add) \ UnionPix(g.sub)) \cup UnionPix(Isl(g))
 RectContour(r) == XS(0)!RectCCW(r[1], r[2], r[3], r[4])
 Contours(rs) == [i \in 1..Len(rs) |-> RectContour(rs[i])]
 Regions(fam) ==
@@ -78,6 +79,12 @@ Regions(fam) ==
                           p \in { q \in RectsOn(-1, 2) \X RectsOn(-1, 2) \X RectsOn(-1, 2) : RectLess(q[1], q[2]) } }
     [] fam = "r2big" -> { [add |-> <<p[1], p[2]>>, sub |-> <<>>] :
                           p \in { q \in RectsOn(-2, 2) \X RectsOn(-2, 2) : RectLess(q[1], q[2]) } }
+    \* a 6 x 6 block minus a hole plus an island inside the hole (nested outlines; island touching the hole's rim)
+    [] fam = "nest" -> { [add |-> << <<-3,-3,3,3>> >>, sub |-> <<h>>, isl |-> <<i>>] :
+                          h \in { r \in RectsOn(-2, 2) : r[3] - r[1] >= 2 /\ r[4] - r[2] >= 2 },
+                          i \in { r \in RectsOn(-2, 2) : r[3] - r[1] <= 2 /\ r[4] - r[2] <= 2 } } \cap
+                       { g \in [add : { << <<-3,-3,3,3>> >> }, sub : { <<r>> : r \in RectsOn(-2, 2) }, isl : { <<r>> : r \in RectsOn(-2, 2) }] :
+                           /\ RectPix(g.isl[1]) \subseteq RectPix(g.sub[1]) /\ RectPix(g.isl[1]) # RectPix(g.sub[1]) }
     [] OTHER -> {}
 RegionFams == {"r1", "r2", "rh", "r3", "r3all", "r2big"}
 
@@ -116,7 +123,7 @@ OffDemand(A, T, d, jt, ml10, seg) ==
 Deltas == << -2, -1, 0, 1, 2 >>
 Variants(quick) ==
   << [jt |-> "Miter", ml10 |-> 20, seg |-> 0], [jt |-> "Miter", ml10 |-> 35, seg |-> 0],
-     [jt |-> "Round", ml10 |-> 20, seg |-> 4], [jt |-> "Round", ml10 |-> 20, seg |-> 8],
+     [jt |-> "Round", ml10 |-> 20, seg |-> 5], [jt |-> "Round", ml10 |-> 20, seg |-> 8],
      [jt |-> "Round", ml10 |-> 20, seg |-> 16], [jt |-> "Round", ml10 |-> 20, seg |-> 3],
      [jt |-> "Square", ml10 |-> 20, seg |-> 0], [jt |-> "Bevel", ml10 |-> 20, seg |-> 0] >>
 
@@ -289,6 +296,7 @@ Init ==
   /\ \E fam \in Families :
        \/ /\ fam \in RegionFams
           /\ \E g \in Regions(fam), k \in {"off", "dec", "hullx"} : cs = [kind |-> k, in |-> g]
+       \/ /\ fam = "nest" /\ \E g \in Regions("nest") : cs = [kind |-> "dec", in |-> g]
        \/ /\ fam = "sharp" /\ \E c \in SharpSet : cs = [kind |-> "sharp", in |-> c]
        \/ /\ fam \in HullFams /\ \E P \in HullCases(fam) : cs = [kind |-> "hull", in |-> P]
        \/ /\ fam \in SimpFams /\ \E x \in SimpCases(fam) : cs = [kind |-> "simp", in |-> x]
@@ -307,7 +315,7 @@ VarsOut(vs) == [i \in 1..Len(vs) |-> [jt |-> vs[i].jt, ml10 |-> vs[i].ml10, seg 
 Emitted(x) ==
   CASE x.kind = "off"   -> [kind |-> "off", K |-> K, add |-> x.g.add, sub |-> x.g.sub, A |-> Enc(x.A), vars |-> VarsOut(x.vars)]
     [] x.kind = "sharp" -> [kind |-> "sharp", K |-> K, c |-> x.c, A |-> Enc(x.A), vars |-> VarsOut(x.vars)]
-    [] x.kind = "dec"   -> [kind |-> "dec", K |-> K, add |-> x.g.add, sub |-> x.g.sub, A |-> Enc(x.A),
+    [] x.kind = "dec"   -> [kind |-> "dec", K |-> K, add |-> x.g.add, sub |-> x.g.sub, isl |-> Isl(x.g), A |-> Enc(x.A),
                             comps |-> { Enc(c) : c \in x.comps }, n |-> Cardinality(x.comps)]
     [] x.kind = "hull"  -> [kind |-> "hull", pts |-> x.pts, hull |-> x.hull, area2 |-> x.area2]
     [] x.kind = "hullx" -> [kind |-> "hullx", rects |-> x.rects, pts |-> x.pts, hull |-> x.hull, area2 |-> x.area2]
@@ -322,8 +330,9 @@ IsK(k) == done = 2 /\ cs.kind = k
 RegionCase == done = 2 /\ cs.kind \in {"off", "dec"}
 (* the pixel set of a region is what Xsec.tla's winding oracle says about its rectangles *)
 RegionIsFill == RegionCase =>
-  /\ cs.A = XS(0)!Fill("Positive", Contours(cs.g.add)) \ XS(0)!Fill("Positive", Contours(cs.g.sub))
-  /\ \A s \in cs.A : << s[1] - 3, s[2] - 3 >> \in Pix(0) /\ << s[1] + 3, s[2] + 3 >> \in Pix(0)  \* room for every offset
+  /\ cs.A = (XS(0)!Fill("Positive", Contours(cs.g.add)) \ XS(0)!Fill("Positive", Contours(cs.g.sub)))
+              \cup XS(0)!Fill("Positive", Contours(Isl(cs.g)))
+  /\ cs.kind = "off" => \A s \in cs.A : << s[1] - 3, s[2] - 3 >> \in Pix(0) /\ << s[1] + 3, s[2] + 3 >> \in Pix(0)  \* room for every offset
 (* no pixel is demanded both inside and outside; demands are monotone in delta *)
 DemandsConsistent == (IsK("off") \/ IsK("sharp")) =>
   \A i \in 1..Len(cs.vars) : LET ds == cs.vars[i].ds IN
